@@ -166,7 +166,8 @@ def check_program(L: harness.Loaded, prog: Dict[str, Any], part: Part) -> None:
         # what must come back: the reference's complete(v) if it accepts, else the supplied values
         lossy = False
         try:
-            L.interp.encode(prog["pid"], values, prog.get("request"))
+            _, _, ref_e = L.interp.encode(prog["pid"], values, prog.get("request"))
+            lossy = bool(ref_e.overlap)  # a bit claimed twice: what comes back for the overwritten parameter is undefined
         except refodx.DontCare as dc:
             lossy = dc.lossy
         except refodx.Reject:
